@@ -16,7 +16,7 @@ RULE = ("one run = one generated item set (leaf visits over generic/TOAST/filter
         "distinct sha1 of the scheduler trace")
 COMPONENTS = {
     "real": ["Pyramid.visit_leaves/_visit_leaves_parallel/_mp_visit_worker", "transform._do_a_transform/_transform_parallel/_transform_mp_worker",
-             "transform._u8_to_rgb_do_one + PyramidIO + PIL (u8 stage)", "MultiTanProcessor.tile/_mp_tile_worker", "MultiWcsProcessor.tile/_mp_tile_worker",
+             "transform.u8_to_rgb / f16x3_to_rgb (public entry points) + PyramidIO + PIL", "MultiTanProcessor.tile/_mp_tile_worker", "MultiWcsProcessor.tile/_mp_tile_worker",
              "PyramidIO.update_image + filelock.SoftFileLock (multi-image stages)", "PyramidReductionIterator", "toasty.toast generators"],
     "stub": ["multiprocessing.Queue/Event/Process (model)", "clock", "reproject function of the multi-WCS stage (recording stand-in passed through its public parameter)"],
 }
@@ -39,10 +39,11 @@ REQUIRED_PROBES = {
 }
 CHUNK = 30
 
-STAGES = [stages.LeafVisitStage, stages.TransformStage, stages.U8TransformStage]
+STAGES = [stages.LeafVisitStage, stages.TransformStage, stages.U8TransformStage, stages.F16TransformStage]
 try:
     from . import multi_stages
     STAGES += [multi_stages.MultiTanStage, multi_stages.MultiWcsStage]
+    HAVE_MULTI = True
 except ImportError:
     pass
 STAGE_P = None
@@ -50,7 +51,7 @@ STAGE_P = None
 
 def pick_stage(ch):
     # cheap stages most of the time; stages doing real tile I/O less often
-    weights = [6, 5, 1, 1, 1][:len(STAGES)]
+    weights = [6, 5, 1, 1, 1, 1][:len(STAGES)]
     tot = sum(weights)
     v = ch.draw(tot, kind="stage")
     acc = 0
@@ -61,15 +62,15 @@ def pick_stage(ch):
     return STAGES[0]
 
 
-def history_violation(hist, expected, what):
+def history_violation(hist, expected, what, set_only=False):
     starts = Counter(e[1] for e in hist if e[0] == "start")
     ends = Counter(e[1] for e in hist if e[0] == "end")
     for k, c in starts.items():
         if k not in expected:
             return ("item-not-in-serial-set", "%s processed item %s which the serial mode does not process" % (what, k))
-        if c != expected[k]:
+        if c != expected[k] and not set_only:
             return ("item-repeated", "%s processed item %s %d times (serial: %d)" % (what, k, c, expected[k]))
-    missing = [k for k in expected if starts.get(k, 0) < expected[k]]
+    missing = [k for k in expected if starts.get(k, 0) < (1 if set_only else expected[k])]
     if missing:
         return ("item-lost", "%s never processed %d item(s), e.g. %s" % (what, len(missing), sorted(missing)[:4]))
     for k, c in starts.items():
@@ -96,6 +97,7 @@ def run_one(ch, env):
     res = {"config": dict(stage.describe(), workers=workers, cb_yields=nyield, n_items=sum(expected.values())),
            "extra": {"stage_" + stage.name: 1, "workers_%d" % workers: 1}}
     needs_dir = getattr(stage, "needs_dir", False)
+    common.draw_progress(ch, res)
 
     # serial control
     rec = stages.Recorder(None)
@@ -114,12 +116,15 @@ def run_one(ch, env):
     if getattr(stage, "expected_from_serial", False):
         expected = Counter(k for kind, k in hist if kind == "start")
         res["config"]["n_items"] = sum(expected.values())
-    v = history_violation(hist, expected, "serial " + stage.name)
+    set_only = getattr(stage, "set_only", False)
+    v = history_violation(hist, expected, "serial " + stage.name, set_only)
     if v is not None:
         res["violation"] = viol(PROP, v[0], v[1], "serial")
         res["digest"] = "serial"
         return res
 
+    if hasattr(stage, "after_serial"):
+        stage.after_serial(d)
     if needs_dir:
         d = env.fresh_dir()
         stage.populate(d)
@@ -149,7 +154,7 @@ def run_one(ch, env):
             hist.append((e[2], tuple(e[3:])))
         else:
             hist.append(tuple(e[2:]))
-    v = history_violation(hist, expected, what)
+    v = history_violation(hist, expected, what, set_only)
     if v is not None:
         res["violation"] = viol(PROP, v[0], v[1])
         return res
